@@ -622,6 +622,10 @@ pub fn explore(r: &dyn Runnable, cfg: &Config) -> Result<Summary, String> {
                         finalize_violations(&mut st);
                         let line = json!({"stats": st.to_json()}).to_string() + "\n";
                         write_fd(pfd, &line);
+                        if std::env::var("VERIF_PROFILE").is_ok() {
+                            let n = sched::PROF[5].load(Ordering::Relaxed).max(1);
+                            eprintln!("PROFILE execs={} avg us: setup={} spawn+prime={} parallel={} join={} finish={}", n, sched::PROF[0].load(Ordering::Relaxed) / n / 1000, sched::PROF[1].load(Ordering::Relaxed) / n / 1000, sched::PROF[2].load(Ordering::Relaxed) / n / 1000, sched::PROF[3].load(Ordering::Relaxed) / n / 1000, sched::PROF[4].load(Ordering::Relaxed) / n / 1000);
+                        }
                         if let Some(b) = back {
                             let jobs: Vec<Value> = b.iter().map(|(p, c)| json!([p, c])).collect();
                             let line = json!({"extra": {"requeue": jobs}}).to_string() + "\n";
